@@ -494,4 +494,8 @@ def consumer_race_case(draw, d):
                 d, {rp: current_inv_body(d, rp)}, {c: {(rp, rc): a}}, vr,
                 gens={c: g})
         reqs[name]['carried_consumer'] = [c, g]
+    if draw(st.integers(0, 4)) == 4:
+        # the same request submitted twice
+        import copy
+        reqs['B'] = copy.deepcopy(reqs['A'])
     return reqs
